@@ -24,6 +24,9 @@ CLAIMED = {
  "C12": dict(level="exploration", oracle="per-reply conformance oracle (capture state sampled at delivery)",
    text="Same simulated histories as C11 for all three modes and several prefix/DNS configurations: every OFFER/ACK must lie in the subnet selected by the capture state sampled when the request was delivered, carry the matching router/DNS/mask (mask before router in wire order), our server id, a lease time and the echoed xid/chaddr; an ACK must confirm the transaction's offer or the client's current unexpired lease; un-honourable requests must not be acknowledged.",
    ref="DESIGN.md section 4 (C12)"),
+ "C18": dict(level="fault_enumeration", oracle="loaded bindings vs bindings of the file before/after the interrupted disk operation; protocol probes after restart",
+   text="DHCP histories run with the lease file on the simulated disk, which records every write/rename. For every explored history the crash-point space is then enumerated: every byte prefix of every write (complete for the last rewrites, strided for older ones in the quick tier, complete in the thorough tier) and every point between disk operations, plus single-byte substitutions, line deletions and duplications of the intact file and live ENOSPC/EIO faults. Each state is followed by a crash-restart (new Session and handler, only durable bytes survive) under a panic trap; loaded bindings must come from the file as it was before or after the interrupted operation, lie in the home subnet and carry a client id; after an intact restart renewals are acknowledged and held addresses are not offered to strangers. Histories are sampled; the crash points of each history are enumerated and counted.",
+   ref="DESIGN.md section 4 (C18)"),
 }
 
 NA = {
